@@ -50,7 +50,8 @@ KNOWN = {
     "F25": ("partial-type-pattern", {"ast", "bc"}),         # `((j: 't))` rendered as `(j: 't)` = a different pattern
     "F26": ("spawn-rich-function", {"ast", "bc", "reparse"}),   # `@#<'t>'int -> 'bin {..}` rendered with the `@type {..}` sugar
     "F27": ("wrap-binding", {"ast", "bc"}),                 # wrap_breaking_body braces a binding/matching chain
-    "F28": ("comment-near-arrow", IK),                      # a comment next to `=>`: the 2nd format wraps the consequence in braces / re-joins
+    "F28": ("comment-and-branches", IK),                    # a comment inside a multi-branch block (e.g. next to `=>`): the 2nd format wraps the consequence in braces / re-joins
+    "F29": ("spawn-container", {"panic"}),                  # `@[..]`, `@"s"`: format_program panics (format.rs:432 unreachable!)
 }
 
 
@@ -63,7 +64,7 @@ def parse_e2e(line):
     if line.startswith("(parse-error)"):
         return {"status": "parse-error"}
     if line.startswith("(panic"):
-        return {"status": "panic", "fails": {"panic"}, "raw": line, "sig": set()}
+        return {"status": "panic", "fails": {"panic"}, "raw": line, "sig": {"spawn-container"} if "spawn-container" in line else set()}
     if not line.startswith("(e2e"):
         return {"status": "harness-error", "fails": {"harness"}, "raw": line[:300], "sig": set()}
     s = sexpr.parse(line)
@@ -198,7 +199,7 @@ def repo_sources():
     for f in sorted(glob.glob(os.path.join(REPO, "std", "*.qv"))):
         std.append(open(f, encoding="utf-8").read())
     tests, seen = [], set()
-    for f in sorted(glob.glob(os.path.join(REPO, "quiver-tests", "tests", "*.rs"))):
+    for f in sorted(glob.glob(os.path.join(REPO, "quiver-tests", "tests", "*.rs"))) + [os.path.join(REPO, "quiver-compiler", "src", "format.rs")]:
         try:
             text = open(f, encoding="utf-8").read()
         except OSError:
@@ -254,7 +255,7 @@ def run(ctx):
     # ---------------------------------------------------------------- end-to-end, real vs real
     std, tests = repo_sources()
     corpus = corpus_sources()
-    gen = gen_sources(ctx, ctx.n(5000, 60000))
+    gen = gen_sources(ctx, ctx.n(10000, 150000))
     sources = [(s, "corpus", None) for s in corpus] + [(s, "std", None) for s in std] + [(s, "tests", None) for s in tests] + gen
     infos = e2e.run([s for s, _, _ in sources])
 
@@ -313,13 +314,14 @@ def run(ctx):
                 failures.append((src, origin, info))
 
     # unknown failures: shrink and report (bounded number of replays; all are counted)
-    reported = {}
+    reported, n_reported = {}, 0
     for src, origin, info in sorted(failures, key=lambda f: len(f[0])):
         key = (tuple(sorted(info["fails"])), tuple(sorted(info["sig"])))
         reported[key] = reported.get(key, 0) + 1
-        if reported[key] > 2 or sum(1 for _ in ctx.violations) >= 12:
+        if reported[key] > 1 or n_reported >= 6:
             continue
-        small = e2e.shrink(src, info["fails"]) if info["status"] != "harness-error" else src
+        n_reported += 1
+        small = e2e.shrink(src, info["fails"], rounds=25) if info["status"] != "harness-error" else src
         detail = e2e.run([small], out=True, sharded=False)[0]
         ctx.violation({"kind": "impl-violation", "oracle": "end-to-end real-vs-real metamorphic check of format_program",
                        "failing_checks": sorted(detail.get("fails", info["fails"])), "signature": sorted(detail.get("sig", [])),
@@ -430,54 +432,76 @@ def cps(s):
     return " ".join(str(ord(c)) for c in s)
 
 
+def uncps(t):
+    return "".join(chr(int(x)) for x in t.split())
+
+
+def esc_fields(line):
+    """`(tag (out cp..) (back ok cp..|err|other|hole))` -> (out text, back text or None)."""
+    m = re.match(r"\((?:esc|single|multi) \((?:out|esc|raw) ?([0-9 ]*)\) \(back ([a-z]+) ?([0-9 ]*)\)\)", line)
+    if not m:
+        return None, None
+    return uncps(m.group(1)), (uncps(m.group(3)) if m.group(2) == "ok" else None)
+
+
 def corr_escape(ctx, qf, drv):
     rng = ctx.rng
-    cases = []
+    strings, cases = [], []
     for _ in range(ctx.n(3000, 60000)):
-        s = gen_string(rng)
+        sv = gen_string(rng)
         kind = rng.choice(["single", "multi", "psingle", "pmulti"])
+        strings.append((kind, sv))
         if kind in ("single", "psingle"):
-            cases.append("(%s %s)" % (kind, cps(s)))
+            cases.append("(%s %s)" % (kind, cps(sv)))
         else:
-            cases.append("(%s %d %s)" % (kind, rng.choice([0, 0, 1, 2, 3]), cps(s)))
+            cases.append("(%s %d %s)" % (kind, rng.choice([0, 0, 1, 2, 3]), cps(sv)))
     rc, real = ctx.run_sharded(qf, cases, args=["esc"])
-    # the model needs the margin the real layout chose: read it off the real output (indentation of the closing delimiter)
-    minputs = []
-    for c, r in zip(cases, real):
-        margin = 0
-        m = re.match(r"\(esc \(out ([0-9 ]*)\)", r)
-        if m and c.startswith(("(multi", "(pmulti")):
-            text = "".join(chr(int(x)) for x in m.group(1).split())
-            mm = re.search(r'\n( *)"""[^"]*$', text)
-            margin = len(mm.group(1)) if mm else 0
-        minputs.append("(%s %d %s" % (c[1:].split(" ", 1)[0], margin, c[1:].split(" ", 1)[1] if " " in c else ")") if c.startswith(("(single", "(psingle")) else
-                       "(%s %d %s" % (c[1:].split(" ")[0], margin, " ".join(c[1:].split(" ")[2:]) if len(c[1:].split(" ")) > 2 else ")"))
+    # what the real formatter printed between the delimiters, and the margin the real layout chose
+    minputs, inners = [], []
+    for (kind, sv), r in zip(strings, real):
+        out, back = esc_fields(r)
+        inner, as_multi, margin = None, False, 0
+        if out is not None:
+            if kind in ("multi", "pmulti") and '"""' in out:
+                as_multi = True
+                a, b = out.index('"""') + 3, out.rindex('"""')
+                inner = out[a:b]
+                margin = len(inner) - len(inner.rstrip(" ")) if "\n" in inner else 0
+            elif '"' in out:
+                inner = out[out.index('"') + 1:out.rindex('"')]
+        inners.append((inner, back, as_multi))
+        minputs.append("(multi %d %s)" % (margin, cps(sv)) if as_multi else "(single %s)" % cps(sv))
     rc, model = ctx.run_sharded(drv, minputs, args=["esc"])
-    bad, f18 = 0, 0
-    for c, r, m in zip(cases, real, model):
-        if r == m:
-            continue
-        # the real round trip itself failing is an implementation violation (F18 when a line ends in a Unicode space)
-        orig = c.split(" ", 2 if c.startswith(("(multi", "(pmulti")) else 1)[-1].rstrip(")")
-        back = re.search(r"\(back ok ?([0-9 ]*)\)", r)
-        real_ok = back is not None and back.group(1).split() == orig.split()
-        if not real_ok:
-            text = "".join(chr(int(x)) for x in orig.split())
-            uspace = c.startswith(("(multi", "(pmulti")) and any(l and l[-1].isspace() and l[-1] not in " \t\r" for l in text.split("\n"))
-            blank2 = c.startswith(("(multi", "(pmulti")) and re.search(r"(^|\n)[^\S \t\r\n]*\n[^\S \t\r\n]*(\n|$)", text) is not None
-            if uspace or blank2:
-                f18 += 1
-                fid = "F18" if uspace else "F15"
-                ctx.violation({"kind": "impl-violation", "finding": fid, "oracle": "parse(format(string program)) = string", "case": c, "impl": r[:500]}, finding_key=fid)
+    if model and model[0].startswith("(unsupported-mode"):
+        return {"cases": 0, "disagreements": 0, "note": "Escape model not in the driver"}
+    bad, known, rendered_single = 0, {}, 0
+    for (kind, sv), c, r, m, (inner, back, as_multi) in zip(strings, cases, real, model, inners):
+        mout, mback = esc_fields(m)
+        if kind == "pmulti" and not as_multi:
+            rendered_single += 1
+        if back != sv:
+            # the real round trip parse(format(program)) itself fails: implementation-level oracle
+            lines_ = sv.split("\n")
+            uspace = as_multi and any(l and l[-1].isspace() and l[-1] not in " \t\r" for l in lines_)
+            blank = [all(ch.isspace() and ch not in " \t\r" for ch in l) for l in lines_]
+            blank2 = as_multi and any(a and b for a, b in zip(blank, blank[1:]))
+            fid = "F18" if uspace else ("F15" if blank2 else None)
+            if fid:
+                known[fid] = known.get(fid, 0) + 1
+                if known[fid] == 1:
+                    ctx.violation({"kind": "impl-violation", "finding": fid, "oracle": "parse(format_program(one-string program)) returns the string",
+                                   "case": c, "impl": r[:600]}, finding_key=fid)
                 continue
             bad += 1
             if bad <= 3:
-                ctx.violation({"kind": "impl-violation", "oracle": "parse(format_program(one-string program)) returns the string", "case": c, "impl": r[:1000], "model": m[:1000]})
+                ctx.violation({"kind": "impl-violation", "oracle": "parse(format_program(one-string program)) returns the string", "case": c,
+                               "impl": r[:1000], "model": m[:1000]})
             continue
-        bad += 1
-        if bad <= 3:
-            ctx.violation({"kind": "correspondence-broken", "correspondence": "Escape.v escape/render vs format.rs (through format_program)", "case": c,
-                           "impl": r[:1000], "model": m[:1000]}, no_input=True)
+        if inner != mout or mback != sv:
+            bad += 1
+            if bad <= 3:
+                ctx.violation({"kind": "correspondence-broken", "correspondence": "Escape.v escape_single/render_multiline + unescape/process_multiline vs format.rs + parser.rs (through format_program / parse)",
+                               "case": c, "impl": r[:1000], "model": m[:1000]}, no_input=True)
     # raw string bodies: the parser's string processing vs the model on arbitrary (also malformed) raw text
     raws = []
     rpool = ["a", "b", " ", " ", "  ", "\t", "\n", "\n", "\n  ", "\n    ", "\r\n", "\\n", "\\t", "\\r", "\\s", "\\\\", "\\\"", "\\{", "\\\n", "\\x", "\\", "\"", "\"\"", "é", "}", "中"]
@@ -489,20 +513,23 @@ def corr_escape(ctx, qf, drv):
             margin = " " * rng.choice([0, 2, 4])
             body = "\n" + "".join(margin + rng.choice(["", " ", "  "]) + l + "\n" for l in body.split("\n")) + margin
         raws.append((mode, "(%s %s)" % (rng.choice(["term", "pat"]), cps(body))))
-    rbad = 0
+    rbad, rcompared, accepted = 0, 0, 0
     for mode in ("rawmulti", "rawsingle"):
-        sub = [c for m, c in raws if m == mode]
+        sub = [c for mm, c in raws if mm == mode]
         rc, real = ctx.run_sharded(qf, sub, args=[mode])
         rc, model = ctx.run_sharded(drv, sub, args=[mode])
         for c, r, m in zip(sub, real, model):
             if m == "(other)" or r == "(other)":
                 continue
+            rcompared += 1
+            accepted += r.startswith("(ok")
             if r != m:
                 rbad += 1
                 if rbad <= 3:
                     ctx.violation({"kind": "correspondence-broken", "correspondence": "Escape.v %s vs parser.rs string processing" % mode, "case": c, "impl": r[:600], "model": m[:600]}, no_input=True)
-    return {"cases": len(cases) + len(raws), "disagreements": bad + rbad, "format_roundtrip_cases": len(cases), "raw_string_cases": len(raws),
-            "real_roundtrip_failures_matching_known": f18}
+    return {"cases": len(cases) + rcompared, "disagreements": bad + rbad, "format_roundtrip_cases": len(cases), "raw_string_cases_compared": rcompared,
+            "raw_strings_accepted_by_parser": accepted, "multiline_patterns_rendered_single_line": rendered_single,
+            "real_roundtrip_failures_matching_known": known}
 
 
 def gen_doc(rng, depth):
@@ -536,6 +563,8 @@ def corr_pretty(ctx, qf, drv):
         cases.append("(pretty (w %s) %s)" % (" ".join(map(str, ws)), gen_doc(rng, rng.choice([1, 2, 3, 4, 5]))))
     rc, real = ctx.run_sharded(qf, cases, args=["pretty"])
     rc, model = ctx.run_sharded(drv, cases, args=["pretty"])
+    if model and model[0].startswith("(unsupported-mode"):
+        return {"cases": 0, "disagreements": 0, "note": "Pretty model not in the driver"}
     bad, differs_by_width = 0, 0
     for c, r, m in zip(cases, real, model):
         if len(set(re.findall(r"\([0-9 ]*\)", r))) > 1:
